@@ -1,6 +1,7 @@
 import TextxVerif.Wire
 import TextxVerif.Peg.GapExt
 import TextxVerif.Peg.WsParam
+import TextxVerif.Peg.Setup
 /-! Driver for C22 (gap extension on the Arpeggio mirror).
 
 {"op":"gapext","nodes":[…as in Drivers/Peg.lean…],"top":n,"comments":n|null,"memo":b,"skipws":b,"ws":"…",
@@ -17,6 +18,11 @@ original outcome (what C22_partial_ws concludes).
 → {"outs":[…],"mods":[{"skipws":b|null,"ws":"…"|null} | {"rejected":true}…]}
 `mods`: the rule modifiers of one rule as written in the grammar → `Peg.ruleMods` (mirror of
 `visit_rule_param` / `visit_rule_params`): the whitespace mode the compiled rule must carry.
+Optional fields of `multi` (set-up of the parser, `Peg/Setup.lean`):
+ "files":[{"name":"main","defines":["Model",…],"imports":["base",…]}…]  (main file first)
+   → "comment_owner": name of the file whose Comment rule is the comments model | null   (`Peg.commentOwner`)
+ "hist":[cfg…],"cfg":cfg   with cfg = {"skipws":b?,"ws":"…"?,"memoization":b?,"debug":b?}
+   → "pcfg":{"skipws":b,"ws":"…","memo":b}   (`Peg.parserCfgAfter`: the meta-models of `hist` are created first)
 -/
 open Lean Wire Peg
 
@@ -119,16 +125,48 @@ def handleMods (j : Json) : Option Json := do
   let ps ← (← asArr? j).mapM parseParamSrc
   pure (modsToJson (ruleMods ps.toList {}))
 
+def parseStrList (j : Json) (k : String) : Option (List String) := do
+  let a ← getArr? j k
+  (a.mapM asStr?).map Array.toList
+
+def parseGFile (j : Json) : Option GFile := do
+  pure { name := ← getStr? j "name", defines := ← parseStrList j "defines", imports := ← parseStrList j "imports" }
+
+def parseMMCfg (j : Json) : Option MMCfg := do
+  let skipws ← optField j "skipws" asBool?
+  let ws ← optField j "ws" (fun v => (asStr? v).map String.toList)
+  let memo ← optField j "memoization" asBool?
+  let debug ← optField j "debug" asBool?
+  pure { skipws := skipws.getD true, ws := ws, memoization := memo.getD false, debug := debug.getD false }
+
+/-- the optional set-up fields of a `multi` request; `none`: present but undecodable -/
+def handleSetup (j : Json) : Option (List (String × Json)) := do
+  let a ← match getObj? j "files" with
+    | none => pure []
+    | some fs => do
+      let files ← (← asArr? fs).mapM parseGFile
+      let main ← files[0]?
+      pure [("comment_owner", match commentOwner files.toList main with | some n => Json.str n | none => Json.null)]
+  let b ← match getObj? j "cfg" with
+    | none => pure []
+    | some c => do
+      let cfg ← parseMMCfg c
+      let hist ← (← getArr? j "hist").mapM parseMMCfg
+      let pc := parserCfgAfter hist.toList cfg
+      pure [("pcfg", Json.mkObj [("skipws", Json.bool pc.skipws), ("ws", Json.str (String.ofList pc.ws)),
+                                 ("memo", Json.bool pc.memo)])]
+  pure (a ++ b)
+
 /-- {"op":"multi","reqs":[gapext requests],"mods":[…]} → {"outs":[…],"mods":[…]} -/
 def handle (j : Json) : Json :=
   match getStr? j "op" with
   | some "multi" =>
-    match getArr? j "reqs", getArr? j "mods" with
-    | some reqs, some mods =>
+    match getArr? j "reqs", getArr? j "mods", handleSetup j with
+    | some reqs, some mods, some extra =>
       match mods.mapM handleMods with
-      | some ms => Json.mkObj [("outs", Json.arr (reqs.map handle1)), ("mods", Json.arr ms)]
+      | some ms => Json.mkObj ([("outs", Json.arr (reqs.map handle1)), ("mods", Json.arr ms)] ++ extra)
       | none => badOp
-    | _, _ => badOp
+    | _, _, _ => badOp
   | _ => handle1 j
 
 def main : IO Unit := serve handle
